@@ -311,6 +311,10 @@ def directed():
                 continue
             yield mk_case(lens_, "int64", list(range(tot_)), "add", "bad_same_total", "R", {"lens": bl, "vals": list(range(tot_))}, "int64", False, "small", recv)
             yield mk_case(lens_, "int64", list(range(tot_)), "less", "bad_same_total", "L", {"lens": bl, "vals": list(range(tot_))}, "int64", True, "small", recv)
+    # very long rows whose boundaries differ by one cell only (any tolerance in the comparison of row geometry lets them through)
+    for la, lb in (([200000, 200000], [200001, 199999]), ([150000, 1, 150000], [150000, 2, 149999]), ([300001], [300000, 1])):
+        for side in "LR":
+            yield mk_case(la, "int8", [1] * sum(la), "add", "bad_same_total" if len(la) == len(lb) else "bad_rows", side, {"lens": lb, "vals": [2] * sum(lb)}, "int8", side == "L")
     # columns of signed zeros with sign-sensitive ufuncs; one-row ragged operands that would broadcast
     for uf in ["true_divide", "copysign", "multiply", "maximum"]:
         for col in ([0.0, -0.0, -0.0], [-0.0, 0.0, 0.0], [-0.0, -0.0, 0.0]):
